@@ -1,10 +1,10 @@
 CONSTANTS
-  N = 2
-  Budget = 99
-  MaxChD = 4
-  CiMax = 1
+  N = 0
+  Budget = 2
+  MaxChD = 1
+  CiMax = 0
   Wide = FALSE
-INIT Init
+INIT InitFixed
 NEXT Next
 INVARIANT Out
 CHECK_DEADLOCK FALSE
